@@ -289,6 +289,20 @@ class C02(Prop):
             else:
                 m = be.stabilizer.clifford_rotation_map(be.pauli(scn["g"]))
             rec["ret"] = be.p_list(m)
+            # the caller owns the table it was given: after it is changed in place (two rotations by single-letter
+            # generators), asking for the table of the same generator again -- directly and through a compiled rotation
+            # gate -- still gives the conjugation table of that generator
+            n = len(scn["g"]) - 1
+            if not scn.get("printopts") and n <= 12:
+                m.rotate_by(be.pauli([1] + [0] * (n - 1) + [0]))
+                m.rotate_by(be.pauli([0] * (n - 1) + [3] + [2]))
+                rec["ret2"] = be.p_list(be.stabilizer.clifford_rotation_map(be.pauli(scn["g"])))
+                gate = be.circuit.clifford_rotation_gate(be.pauli(scn["g"]))
+                if hasattr(gate, "compile") and len(getattr(gate, "qubits", ())) == n:
+                    gate.compile()
+                    rec["ret3"] = be.p_list(gate.forward_map)
+                    gate.forward_map.rotate_by(be.pauli([2] + [0] * (n - 1) + [0]))
+                    rec["ret4"] = be.p_list(be.stabilizer.clifford_rotation_map(be.pauli(scn["g"])))
         except Exception as e:
             rec["exc"] = _exc(e)
         return rec
